@@ -9,6 +9,7 @@ import (
 	"strconv"
 	"strings"
 	"time"
+	"unicode/utf8"
 
 	"github.com/influxdata/influxql"
 )
@@ -404,4 +405,82 @@ func init() {
 			s, _ := decStr(args[0])
 			return len(durComp.FindAllString(s, -1)) >= 2
 		}})
+}
+
+// ---------------------------------------------------------------- dur.bytes: ParseDuration on raw bytes
+
+// genDurBytes: duration spellings damaged at the byte level: a multi-byte unit letter cut short at every
+// place (the lone lead byte 0xC2 of 'µ' at the end, in the middle, doubled), stray continuation bytes,
+// over-long encodings, and random byte edits of valid spellings (round-3 seeded change C04-1 read s[i+1]
+// after a lead byte without a length check).
+func genDurBytes(r *rand.Rand, n int, emit func(args ...string)) {
+	e := func(b []byte) { emit(encStr(string(b)), encBytes(b)) }
+	for _, s := range []string{"1\xc2", "10m5\xc2", "1\xc2\xb5", "1\xb5", "1\xc2s", "5\xc2\xc2", "1\xc2\xb5\xc2", "\xc2", "1\xce\xbc", "1\xc3", "1m\xc2", "1\xe2\x82", "1\xf0\x9f\x98", "3s7\xc2", "1\xc0\xb5", "1u\xff", "\xff1s", "1\x00s", "1s\x00"} {
+		b, _ := strconv.Unquote(`"` + s + `"`)
+		e([]byte(b))
+	}
+	for i := 0; i < n; i++ {
+		b := []byte(randValidCompositeDuration(r))
+		switch r.Intn(5) {
+		case 0: // truncate inside the text (possibly inside a µ)
+			b = b[:r.Intn(len(b)+1)]
+		case 1: // append a lead byte
+			b = append(b, []byte{0xc2, 0xc3, 0xe2, 0xf0, 0xb5, 0x80}[r.Intn(6)])
+		case 2: // replace a byte
+			if len(b) > 0 {
+				b[r.Intn(len(b))] = byte(r.Intn(256))
+			}
+		case 3: // insert a µ cut short
+			k := r.Intn(len(b) + 1)
+			b = append(b[:k:k], append([]byte{0xc2}, b[k:]...)...)
+		}
+		e(b)
+	}
+}
+
+func implDurBytes(args []string) string {
+	if len(args) != 2 {
+		return "bad-arg"
+	}
+	b, err := decBytes(args[1])
+	if err != nil {
+		return "bad-arg"
+	}
+	d, perr := influxql.ParseDuration(string(b))
+	if perr != nil {
+		return "err " + encStr(perr.Error())
+	}
+	return "ok " + encInt(int64(d))
+}
+
+// propDurBytes: any byte string yields the exact sum of a well-formed spelling or an error (a panic is
+// reported by the driver); the same holds when the bytes arrive as a bound duration parameter.
+func propDurBytes(args []string) string {
+	if len(args) != 2 {
+		return "skip"
+	}
+	b, err := decBytes(args[1])
+	if err != nil {
+		return "skip"
+	}
+	if msg := propDurParse([]string{encStr(string(b))}); msg != "" && utf8.Valid(b) {
+		return msg
+	}
+	d, perr := influxql.ParseDuration(string(b))
+	if perr == nil && !durGrammar.Match(b) {
+		return fmt.Sprintf("ParseDuration(%q) = %d for bytes outside the duration grammar", b, int64(d))
+	}
+	p := influxql.NewParser(strings.NewReader("SELECT v FROM m WHERE time > now() - $d"))
+	p.SetParams(map[string]interface{}{"d": map[string]interface{}{"duration": string(b)}})
+	st, serr := p.ParseStatement()
+	if serr == nil && st == nil {
+		return fmt.Sprintf("duration parameter %q: nil statement and nil error", b)
+	}
+	return ""
+}
+
+func init() {
+	register(&stream{name: "dur.bytes", gen: genDurBytes, impl: implDurBytes, prop: propDurBytes,
+		class:      func(args []string, out string) string { return out[:2] },
+		nontrivial: func(args []string, out string) bool { b, _ := decBytes(args[1]); return !utf8.Valid(b) }})
 }
